@@ -72,8 +72,12 @@ class World:
         first = self.g.terms[0]
 
         def rec(inp, pos):
-            if flags["recognizer"]:
-                raise Boom("recognizer")
+            # fault injection: raise on the k-th call of this parse (k = flags value)
+            if flags["recognizer"] is not False:
+                if flags["recognizer"] <= 0:
+                    flags["recognizer"] = False
+                    raise Boom("recognizer")
+                flags["recognizer"] -= 1
             e = tdefs[first].match(inp, pos)
             return inp[pos:e] if e is not None else None
 
@@ -84,8 +88,11 @@ class World:
 
         def mk(name):
             def act(context, nodes):
-                if flags["action"] and name == self.g.start:
-                    raise Boom("action")
+                if flags["action"] is not False:
+                    if flags["action"] <= 0:
+                        flags["action"] = False
+                        raise Boom("action")
+                    flags["action"] -= 1
                 return (name, tuple(nodes))
 
             return act
@@ -172,7 +179,11 @@ def one_grammar(ctx, g, alphabet, n):
         for _ in range(L):
             op = rng.choice(OPS)
             arg = None
-            if op in ("ps", "pa", "pg"):
+            if op in ("pa", "pg"):
+                # [input, k]: the fault fires on the k-th call; inputs include non-sentences so
+                # that recognizers also raise while an error is being reported
+                arg = [rng.choice(sentences) if rng.random() < 0.6 else rng.choice(nons), rng.choice([0, 0, 1, 2, 3, 4, 5, 6, 8])]
+            elif op == "ps":
                 arg = rng.choice(sentences)
             elif op in ("pn", "pr"):
                 arg = rng.choice(nons) if rng.random() < 0.8 else glrwork.relayout(rng.choice(nons), rng)
@@ -224,17 +235,17 @@ def execute(ctx, hist, judge_state):
         elif op == "pr":
             canon("lr_rec", w.subjects["lr_rec"], arg)
         elif op == "pa":
-            w.flags["action"] = True
+            w.flags["action"] = arg[1]
             try:
-                r = canon(subj, s, arg)
+                r = canon(subj, s, arg[0])
                 if ctx is not None and r[:2] == ["exc", "Boom"]:
                     ctx.count("raised.in_action")
             finally:
                 w.flags["action"] = False
         elif op == "pg":
-            w.flags["recognizer"] = True
+            w.flags["recognizer"] = arg[1]
             try:
-                r = canon(subj, s, arg)
+                r = canon(subj, s, arg[0])
                 if ctx is not None and r[:2] == ["exc", "Boom"]:
                     ctx.count("raised.in_recognizer")
             finally:
